@@ -683,7 +683,8 @@ impl<'a, E: EndiannessRead, V: EncodingVersion> XTypesDeserializer<'a, E, V> {
             deserializer: &mut XTypesDeserializer<'a, E, V>,
             length: usize,
         ) -> XTypesResult<Vec<O>> {
-            let mut sequence = Vec::with_capacity(length);
+            // The length comes from the wire: never reserve more elements than bytes are left
+            let mut sequence = Vec::with_capacity(length.min(deserializer.reader.remaining()));
             for _ in 0..length {
                 sequence.push(deserializer.deserialize_primitive_type()?);
             }
@@ -756,14 +757,14 @@ impl<'a, E: EndiannessRead, V: EncodingVersion> XTypesDeserializer<'a, E, V> {
             ),
             TypeKind::CHAR16 => todo!(),
             TypeKind::STRING8 => {
-                let mut values = Vec::with_capacity(length);
+                let mut values = Vec::with_capacity(length.min(self.reader.remaining()));
                 for _ in 0..length {
                     values.push(self.deserialize_string_type()?);
                 }
                 dynamic_data.set_string_values(member.get_id(), values)
             }
             TypeKind::STRING16 => {
-                let mut values = Vec::with_capacity(length);
+                let mut values = Vec::with_capacity(length.min(self.reader.remaining()));
                 for _ in 0..length {
                     values.push(self.deserialize_wstring_type()?);
                 }
@@ -793,9 +794,15 @@ impl<'a, E: EndiannessRead, V: EncodingVersion> XTypesDeserializer<'a, E, V> {
             }
             TypeKind::ANNOTATION => todo!(),
             TypeKind::ENUM | TypeKind::STRUCTURE | TypeKind::UNION => {
-                let mut values = Vec::with_capacity(length);
+                let mut values = Vec::with_capacity(length.min(self.reader.remaining()));
                 for _ in 0..length {
+                    let remaining_before = self.reader.remaining();
                     values.push(self.deserialize_as_nested(element_type)?);
+                    // An element that occupies no bytes in a sequence that claims more elements than there
+                    // are bytes left can only come from a corrupt length: do not loop over it
+                    if self.reader.remaining() == remaining_before && length > remaining_before {
+                        return Err(XTypesError::InvalidData);
+                    }
                 }
                 dynamic_data.set_complex_values(member.get_id(), values)
             }
@@ -972,7 +979,7 @@ impl<'a, E: EndiannessRead, V: EncodingVersion> XTypesDeserializer<'a, E, V> {
             return Ok(String::new());
         }
         let num_units = length.saturating_sub(1) as usize;
-        let mut units = Vec::with_capacity(num_units);
+        let mut units = Vec::with_capacity(num_units.min(self.reader.remaining()));
         for _ in 0..num_units {
             let unit = self.deserialize_primitive_type::<u16>()?;
             units.push(unit);
@@ -1284,6 +1291,10 @@ struct Reader<'a> {
 }
 
 impl<'a> Reader<'a> {
+    fn remaining(&self) -> usize {
+        self.buffer.len() - self.pos
+    }
+
     fn read_byte(&mut self) -> XTypesResult<u8> {
         if self.pos + 1 > self.buffer.len() {
             return Err(XTypesError::NotEnoughData);
